@@ -39,13 +39,16 @@ class Component:
         try:
             if kind == "breaker":
                 self.obj = CircuitBreaker(failure_threshold=THRESHOLD, window_s=g(640), recovery_timeout_s=g(64), trip_on={ErrorClass.TRANSIENT})
+            elif kind == "breaker_ct":
+                # opens through a per-class threshold only (the global threshold is out of reach)
+                self.obj = CircuitBreaker(failure_threshold=50, window_s=g(640), recovery_timeout_s=g(64), trip_on=set(), class_thresholds={ErrorClass.TRANSIENT: THRESHOLD})
             else:
                 self.obj = Budget(max_retries=BUDGET_MAX, window_s=g(640))
         finally:
             bootstrap.set_sched(None)
         b = self.obj
         T = ErrorClass.TRANSIENT
-        if kind == "breaker":
+        if kind in ("breaker", "breaker_ct"):
             if init == "closed_near":
                 b.record_failure(T)
             elif init in ("open_early", "open_ready", "half_probe", "half_free"):
@@ -87,7 +90,7 @@ class Component:
     def observe(self):
         """Observable final state through follow-up public operations (single-threaded)."""
         b = self.obj
-        if self.kind == "breaker":
+        if self.kind in ("breaker", "breaker_ct"):
             out = [b.state.value]
             d1 = b.allow()
             d2 = b.allow()
@@ -195,7 +198,7 @@ def check_program(case: dict) -> Verdict:
 
 def enum_two_by_one(tier: str):
     """Every ordered pair of operations x every initial state: full DFS (no pre-emption bound)."""
-    for kind, ops, inits in (("breaker", BREAKER_OPS, BREAKER_INITS), ("budget", BUDGET_OPS, BUDGET_INITS)):
+    for kind, ops, inits in (("breaker", BREAKER_OPS, BREAKER_INITS), ("breaker_ct", BREAKER_OPS, BREAKER_INITS), ("budget", BUDGET_OPS, BUDGET_INITS)):
         for init in inits:
             for a, b in itertools.product(ops, repeat=2):
                 yield {"kind": kind, "init": init, "program": [[a], [b]], "max_preemptions": None, "max_schedules": 60000}
@@ -203,9 +206,9 @@ def enum_two_by_one(tier: str):
 
 @st.composite
 def program_case(draw, tier: str):
-    kind = draw(st.sampled_from(["breaker", "breaker", "budget"]))
-    ops = BREAKER_OPS if kind == "breaker" else BUDGET_OPS
-    inits = BREAKER_INITS if kind == "breaker" else BUDGET_INITS
+    kind = draw(st.sampled_from(["breaker", "breaker_ct", "budget"]))
+    ops = BREAKER_OPS if kind != "budget" else BUDGET_OPS
+    inits = BREAKER_INITS if kind != "budget" else BUDGET_INITS
     nthreads = draw(st.sampled_from([2, 3, 3]))
     per = draw(st.sampled_from([1, 2] if nthreads == 3 else [2, 2, 3]))
     program = [draw(st.lists(st.sampled_from(ops), min_size=1, max_size=per)) for _ in range(nthreads)]
@@ -222,7 +225,7 @@ PROP = Property(
     id="C17",
     level="exploration",
     rule=(
-        "Small concurrent programs over the public operations of one CircuitBreaker (allow, record_success, "
+        "Small concurrent programs over the public operations of one CircuitBreaker (two configurations: opening through the global threshold, or only through a per-class threshold; allow, record_success, "
         "record_failure, record_cancel, state) or one Budget (consume(1), consume(2), remaining) from initial states built by "
         "a sequential prefix (closed, closed with threshold-1 failures, open before/after the recovery timeout, half-open "
         "with the probe taken / free; budget empty / one left / full). The harness owns the schedule: real threads run one "
